@@ -1,7 +1,353 @@
 import KM.Driver.Core
-/-! Driver for C20 (stub until the property's model is built). -/
-namespace KM.Driver.C20
+import KM.Model.Events
+/-! Driver for C20.  Three op streams share one handler (first field selects the stream):
 
-def handler (_mode : String) : Option Handler := none
+* `n …` notifier ops against `harness/eventnotifier`;
+* `r …` recorder ops against `harness/eventrecorder`;
+* `i …` issuing-path ops against `harness/keymasterd/zz_verif_c20_test.go`.
+
+`judge` evaluates the predicates of the C20 theorems on what the implementation returned. -/
+namespace KM.Driver.C20
+open KM.Util KM.Events
+
+/-! ### helpers -/
+
+def joinWith (sep : String) (l : List String) : String :=
+  if l.isEmpty then "-" else sep.intercalate l
+
+def splitList (sep : String) (s : String) : List String :=
+  if s == "-" then [] else s.splitOn sep
+
+def canon (e : EventV0) : String :=
+  s!"{e.type},{hexB e.certData},{hex e.authType},{hex e.serviceProviderUrl},{hex e.username},{hex e.vipAuthType}"
+
+def parsePub : List String → Option PubCall
+  | ["ssh", h] => (unhexB h).map .ssh
+  | ["x509", h] => (unhexB h).map .x509
+  | ["auth", a, u] => do pure (.auth (← unhex a) (← unhex u))
+  | ["sp", url, u] => do pure (.spLogin (← unhex url) (← unhex u))
+  | ["web", u] => do pure (.webLogin (← unhex u))
+  | ["vip", v, u] => do pure (.vipAuth (← unhex v) (← unhex u))
+  | _ => none
+
+def insertSorted (k : Nat) : List Nat → List Nat
+  | [] => [k]
+  | a :: r => if k < a then k :: a :: r else if k = a then a :: r else a :: insertSorted k r
+
+/-! ### notifier stream -/
+
+/-- driver state kept as data (tables), turned into the model's function-valued `St` for each op -/
+structure NS where
+  keys : List Nat := []
+  qt : List (Nat × List String) := []
+  gt : List (Nat × List String) := []
+  ids : List Nat := []               -- subscribers whose state is reported (ascending)
+  kinds : List (Nat × Nat) := []     -- 1 gated, 2 free-running, 3 stalled (not modelled)
+  blocked : List Nat := []           -- gated subscribers sitting in a held write
+
+def NS.st (ns : NS) : St String :=
+  { keys := ns.keys, q := fun k => (ns.qt.lookup k).getD [], got := fun k => (ns.gt.lookup k).getD [] }
+
+def NS.kind (ns : NS) (k : Nat) : Nat := (ns.kinds.lookup k).getD 0
+
+/-- work state of one op -/
+structure NW where
+  st : St String
+  blocked : List Nat
+
+def drainAll (s : St String) (k : Nat) : Nat → St String
+  | 0 => s
+  | n + 1 => drainAll (step chanCap s (.recv k)) k n
+
+/-- what the connection goroutine does on its own after a state change: a free-running reader
+empties its channel; a gated one takes one event and then sits in the (held) write -/
+def settle1 (ns : NS) (w : NW) (k : Nat) : NW :=
+  if ns.kind k == 2 then { w with st := drainAll w.st k (w.st.q k).length }
+  else if ns.kind k == 1 && !w.blocked.contains k && !(w.st.q k).isEmpty then
+    { st := step chanCap w.st (.recv k), blocked := k :: w.blocked }
+  else w
+
+def settle (ns : NS) (w : NW) : NW := ns.ids.foldl (settle1 ns) w
+
+def NS.put (ns : NS) (w : NW) : NS :=
+  { ns with keys := w.st.keys, qt := ns.ids.map fun k => (k, w.st.q k), gt := ns.ids.map fun k => (k, w.st.got k),
+            blocked := w.blocked.filter ns.ids.contains }
+
+def nstatus (ns : NS) : String :=
+  "box=1" ++ String.join (ns.ids.map fun k => s!" {k}:{(ns.st.q k).length}:{(ns.st.got k).length}")
+
+def npubW (ns : NS) (w : NW) (pc : PubCall) : NW :=
+  settle ns { w with st := step chanCap w.st (.pub (canon (mkEvent pc))) }
+
+def nfloodW (ns : NS) (url : String) : Nat → NW → NW
+  | 0, w => w
+  | n + 1, w => nfloodW ns url n (npubW ns w (.spLogin url "flood"))
+
+def NS.work (ns : NS) : NW := { st := ns.st, blocked := ns.blocked }
+
+def nstep (ns : NS) : List String → NS × String
+  | ["sub", id, k] =>
+    match id.toNat?, k with
+    | some i, "stall" => ({ ns with kinds := (i, 3) :: ns.kinds.filter (·.1 != i) }, nstatus ns)
+    | some i, _ =>
+      if k == "gated" || k == "free" || k == "tcp" then
+        let ns1 := { ns with ids := insertSorted i ns.ids,
+                             kinds := (i, if k == "gated" then 1 else 2) :: ns.kinds.filter (·.1 != i),
+                             blocked := ns.blocked.filter (· != i) }
+        let ns' := ns1.put { st := step chanCap ns.st (.sub i), blocked := ns1.blocked }
+        (ns', nstatus ns')
+      else (ns, "bad-op")
+    | none, _ => (ns, "bad-op")
+  | "pub" :: rest =>
+    match parsePub rest with
+    | some pc => let ns' := ns.put (npubW ns ns.work pc); (ns', nstatus ns')
+    | none => (ns, "bad-op")
+  | ["flood", n, size] =>
+    match n.toNat?, size.toNat? with
+    | some n, some sz =>
+      let ns' := ns.put (nfloodW ns (String.ofList (List.replicate sz 'x')) n ns.work)
+      (ns', nstatus ns')
+    | _, _ => (ns, "bad-op")
+  | ["release", id] =>
+    match id.toNat? with
+    | some i =>
+      let ns' := ns.put (settle ns { st := ns.st, blocked := ns.blocked.filter (· != i) })
+      (ns', nstatus ns')
+    | none => (ns, "bad-op")
+  | ["close", id] =>
+    match id.toNat? with
+    | some i =>
+      if ns.kind i == 3 then ({ ns with kinds := ns.kinds.filter (·.1 != i) }, "closed " ++ nstatus ns)
+      else if ns.kind i == 0 then (ns, "bad-op")
+      else
+        let out := s!"closed {i}={joinWith "|" (ns.st.got i)}"
+        let ns1 := { ns with ids := ns.ids.filter (· != i), kinds := ns.kinds.filter (·.1 != i) }
+        let ns' := ns1.put { st := step chanCap ns.st (.unsub i), blocked := ns.blocked }
+        (ns', out ++ " " ++ nstatus ns')
+    | none => (ns, "bad-op")
+  | ["dump"] =>
+    (ns, "dump" ++ String.join (ns.ids.map fun k => s!" {k}={joinWith "|" (ns.st.got k)}"))
+  | _ => (ns, "bad-op")
+
+/-! ### recorder stream -/
+
+def evStr (e : Event) : String :=
+  s!"{e.authType}.{e.createTime}.{e.lifetimeSeconds}.{hex (String.ofList e.serviceProviderUrl)}.{boolStr e.ssh}.{boolStr e.webLogin}.{boolStr e.x509}.{e.vipAuthType}"
+
+def parseEv (s : String) : Option Event :=
+  match s.splitOn "." with
+  | [a, ct, l, url, sh, w, x, v] => do
+    pure { authType := ← a.toNat?, createTime := ← ct.toNat?, lifetimeSeconds := ← l.toNat?,
+           serviceProviderUrl := (← unhex url).toList, ssh := ← parseBool sh, webLogin := ← parseBool w,
+           x509 := ← parseBool x, vipAuthType := ← v.toNat? }
+  | _ => none
+
+def parseEvs (s : String) : Option (List Event) := (splitList "|" s).mapM parseEv
+
+/-- `fn/fo` -/
+def parseDL (s : String) : Option DL :=
+  match s.splitOn "/" with
+  | [a, b] => do pure ⟨← parseEvs a, ← parseEvs b⟩
+  | _ => none
+
+def dlStr (l : DL) : String := joinWith "|" (l.fn.map evStr) ++ "/" ++ joinWith "|" (l.fo.map evStr)
+
+def insertStr (k : String) : List String → List String
+  | [] => [k]
+  | a :: r => if k < a then k :: a :: r else if k = a then a :: r else a :: insertStr k r
+
+/-- The model's maps are functions; the driver keeps them as tables (data) between ops so that
+a lookup never re-runs the op history. -/
+abbrev Tbl (β : Type) := List (String × Option β)
+
+def ofTbl {β : Type} (t : Tbl β) : String → Option β := fun v => (t.lookup v).getD none
+
+def toTbl {β : Type} (users : List String) (m : String → Option β) : Tbl β := users.map fun u => (u, m u)
+
+structure RS where
+  m : Tbl DL := []
+  users : List String := []
+  file : Option (Tbl (List Event)) := none
+  fileUsers : List String := []
+
+def blankEvent (ct : Nat) : Event :=
+  { authType := 0, createTime := ct, lifetimeSeconds := 0, serviceProviderUrl := [], ssh := false,
+    webLogin := false, x509 := false, vipAuthType := 0 }
+
+def rrec (rs : RS) (u : String) (e : Event) : RS × String :=
+  ({ rs with m := toTbl (insertStr u rs.users) (record (ofTbl rs.m) u e), users := insertStr u rs.users },
+   s!"ok {e.createTime} {e.lifetimeSeconds}")
+
+def rstep (rs : RS) : List String → RS × String
+  | ["base", t] => (rs, s!"base {t}")
+  | ["reset"] => ({}, "reset")
+  | ["rec", u, "auth", a, v, ct] =>
+    match a.toNat?, v.toNat?, ct.toNat? with
+    | some a, some v, some ct => rrec rs u { blankEvent ct with authType := a, vipAuthType := v }
+    | _, _, _ => (rs, "bad-op")
+  | ["rec", u, "sp", url, ct] =>
+    match unhex url, ct.toNat? with
+    | some url, some ct => rrec rs u { blankEvent ct with serviceProviderUrl := url.toList }
+    | _, _ => (rs, "bad-op")
+  | ["rec", u, "web", ct] =>
+    match ct.toNat? with
+    | some ct => rrec rs u { blankEvent ct with webLogin := true }
+    | none => (rs, "bad-op")
+  | ["rec", u, "cert", k, ms, ct] =>
+    match ms.toNat?, ct.toNat? with
+    | some ms, some ct =>
+      if k == "ssh" || k == "x509" then
+        rrec rs u { blankEvent ct with lifetimeSeconds := roundLifetime ms, ssh := k == "ssh", x509 := k == "x509" }
+      else (rs, "bad-op")
+    | _, _ => (rs, "bad-op")
+  | ["snap"] =>
+    (rs, "snap" ++ String.join (rs.users.map fun u => s!" {u}={dlStr ((ofTbl rs.m u).getD DL.empty)}"))
+  | ["save"] => ({ rs with file := some (toTbl rs.users (save (ofTbl rs.m))), fileUsers := rs.users }, "saved")
+  | ["load", now] =>
+    match now.toInt? with
+    | some now =>
+      match rs.file with
+      | some f => ({ rs with m := toTbl rs.fileUsers (load now (ofTbl f)), users := rs.fileUsers }, "loaded")
+      | none => ({ rs with m := [], users := [] }, "loaded")
+    | none => (rs, "bad-op")
+  | ["expire", now] =>
+    match now.toInt? with
+    | some now =>
+      let m' := toTbl rs.users (expire now (ofTbl rs.m))
+      let changed := rs.users.any fun u => decide (((ofTbl m' u).map DL.snapshot) ≠ ((ofTbl rs.m u).map DL.snapshot))
+      ({ rs with m := m' }, s!"expired {boolStr changed}")
+    | none => (rs, "bad-op")
+  | _ => (rs, "bad-op")
+
+/-! ### issuing-path stream -/
+
+structure IS where
+  st : St String := St.empty
+  fast : List Nat := []
+  seen : Nat → Nat := fun _ => 0
+
+def certType (kind : String) : Option String :=
+  if kind == "ssh" then some KM.Gen.eventmonEventTypeSSHCert
+  else if kind == "x509" || kind == "x509-kubernetes" || kind == "role" || kind == "refresh" || kind == "aws" then
+    some KM.Gen.eventmonEventTypeX509Cert
+  else none
+
+/-- publish the events, let every fast subscriber read, report what each received since the last op -/
+def ipublish (s : IS) (evs : List String) : IS × String :=
+  let st1 := evs.foldl (fun st e => s.fast.foldl (fun st k => step chanCap st (.recv k)) (step chanCap st (.pub e))) s.st
+  let out := String.join (s.fast.map fun k => s!" {k}:{joinWith "+" ((st1.got k).drop (s.seen k))}")
+  ({ s with st := st1, seen := fun k => (st1.got k).length }, out)
+
+def istep (s : IS) : List String → IS × String
+  | ["sub", id, k] =>
+    match id.toNat? with
+    | some i =>
+      if k == "fast" then
+        ({ s with st := step chanCap s.st (.sub i), fast := insertSorted i s.fast, seen := setAt s.seen i 0 }, "ok")
+      else if k == "stall" then (s, "ok") else (s, "bad-op")
+    | none => (s, "bad-op")
+  | ["close", id] =>
+    match id.toNat? with
+    | some i => ({ s with st := step chanCap s.st (.unsub i), fast := s.fast.filter (· != i) }, "ok")
+    | none => (s, "bad-op")
+  | ["issue", kind, _variant, status] =>
+    match certType kind with
+    | some ty =>
+      if status == "200" then
+        let (s', out) := ipublish s [s!"{ty};1"]
+        (s', s!"status=200 order=before box=1{out}")
+      else
+        let (s', out) := ipublish s []
+        (s', s!"status={status} order=na box=1{out}")
+    | none => (s, "bad-op")
+  | ["login", user, ok] =>
+    if ok == "1" then
+      let (s', out) := ipublish s [s!"{KM.Gen.eventmonEventTypeAuth};{KM.Gen.eventmonAuthTypePassword},{user}",
+                                   s!"{KM.Gen.eventmonEventTypeWebLogin};{user}"]
+      (s', s!"ok=1 box=1{out}")
+    else
+      let (s', out) := ipublish s []
+      (s', s!"ok=0 box=1{out}")
+  | ["flood", n, _size] =>
+    match n.toNat? with
+    | some n =>
+      let (s', out) := ipublish s (List.replicate n s!"{KM.Gen.eventmonEventTypeServiceProviderLogin};flood")
+      (s', s!"box=1{out}")
+    | none => (s, "bad-op")
+  | _ => (s, "bad-op")
+
+/-! ### handler -/
+
+structure MS where
+  n : NS := {}
+  r : RS := {}
+  i : IS := {}
+
+def mstep (s : MS) : List String → MS × String
+  | "n" :: rest => let (n', o) := nstep s.n rest; ({ s with n := n' }, o)
+  | "r" :: rest => let (r', o) := rstep s.r rest; ({ s with r := r' }, o)
+  | "i" :: rest => let (i', o) := istep s.i rest; ({ s with i := i' }, o)
+  | _ => (s, "bad-op")
+
+/-! ### judge: the predicates of the theorems, on what the implementation returned -/
+
+/-- c20_drop_only_when_full / c20_delivery: the events handed to a subscriber are the published
+ones minus exactly those published while its channel held `N` events -/
+def judgeDeliv (N : Nat) (qlens : List Nat) (pubs handed : List String) : String :=
+  if qlens.length != pubs.length then "bad-op"
+  else
+    let expected := ((pubs.zip qlens).filter fun p => p.2 < N).map (·.1)
+    let full := (qlens.filter fun l => N ≤ l).length
+    if handed == expected then "ok"
+    else if handed.length + full != pubs.length then
+      s!"viol lost={pubs.length - handed.length} full-at-publish={full}"
+    else "viol order-or-content"
+
+/-- c20_saveload -/
+def judgeSaveLoad (now : Int) (before after : DL) : String :=
+  if after.fn != before.fn.filter (keep now) then
+    (if after.fn == (before.fn.filter (keep now)).reverse then "viol reversed" else "viol content")
+  else if !decide after.wf then "viol pointers-inconsistent"
+  else "ok"
+
+/-- c20_expire -/
+def judgeExpire (now : Int) (before after : DL) : String :=
+  let n := after.fn.length
+  if after.fn != before.fn.take n then "viol not-a-prefix"
+  else if (before.fn.drop n).any (keep now) then "viol dropped-young-entry"
+  else if (match after.fn.getLast? with | some e => !keep now e | none => false) then "viol kept-expired-oldest"
+  else if !decide after.wf then "viol pointers-inconsistent"
+  else "ok"
+
+def judge : List String → String
+  | ["deliv", n, qlens, pubs, handed] =>
+    match n.toNat?, (splitList "," qlens).mapM String.toNat? with
+    | some n, some ql => judgeDeliv n ql (splitList "|" pubs) (splitList "|" handed)
+    | _, _ => "bad-op"
+  | ["saveload", now, b, a] =>
+    match now.toInt?, parseDL b, parseDL a with
+    | some now, some b, some a => judgeSaveLoad now b a
+    | _, _, _ => "bad-op"
+  | ["expire", now, b, a] =>
+    match now.toInt?, parseDL b, parseDL a with
+    | some now, some b, some a => judgeExpire now b a
+    | _, _, _ => "bad-op"
+  | "issued" :: kind :: status :: order :: box :: subs =>
+    match certType kind with
+    | none => "bad-op"
+    | some ty =>
+      if box != "1" then "viol issuance-blocked"
+      else if status != "200" then "ok"
+      else if order != "before" then s!"viol no-event-before-response order={order}"
+      else
+        match subs.find? (fun t => (t.splitOn ":").getD 1 "" != s!"{ty};1") with
+        | some t => s!"viol subscriber {t}"
+        | none => "ok"
+  | _ => "bad-op"
+
+def handler (mode : String) : Option Handler :=
+  if mode == "model" then some { σ := MS, init := {}, step := mstep }
+  else if mode == "judge" then some (.pure judge)
+  else none
 
 end KM.Driver.C20
